@@ -328,6 +328,9 @@ let judge_line (line : string) =
            report line ((if a = b then [] else [z_of_int 86]) @ (if a = c then [] else [z_of_int 87]) @ (if ok = "1" then [] else [z_of_int 88]))
        | _ -> report line [z_of_int 99])
   | ["gs"; _; _], [v] -> bump opcount "GlobalsSnapshot"; report line (if v = "1" then [] else [z_of_int 89])
+  | ["gn"; b], [g; o] ->
+      bump opcount "NumDigitsGlobals"; Hashtbl.replace nontrivial b ();
+      report line ((if g = "1" then [] else [z_of_int 89]) @ (if o = "1" then [] else [z_of_int 88]))
   | ["fm"; d], rhs when List.length rhs = 27 ->
       let (outs, back) = split_at "|" rhs in
       bump opcount "Format"; Hashtbl.replace nontrivial d ();
